@@ -190,6 +190,15 @@ func C18(tier string) int {
 					return err
 				}
 				pop = append(pop, c18Acct{wallet: "D1", name: "dacc", pub: a.PublicKey().Marshal(), composite: comp.PublicKey().Marshal()})
+				// A distributed account whose participants' addresses are an IPv6 literal and a bare host name (wallets
+				// are also written by other tools): it is an account like any other.
+				k6, comp6 := rig.NewKey(), rig.NewKey()
+				a6, err := dw.(e2wtypes.WalletDistributedAccountImporter).ImportDistributedAccount(ctx, "dacc6", k6.Marshal(), 2, [][]byte{comp6.PublicKey().Marshal(), rig.NewKey().PublicKey().Marshal()},
+					map[uint64]string{1: "signer-test01:8881", 2: "[fd00::2]:9091", 3: "barehost"}, []byte("pass"))
+				if err != nil {
+					return err
+				}
+				pop = append(pop, c18Acct{wallet: "D1", name: "dacc6", pub: a6.PublicKey().Marshal(), composite: comp6.PublicKey().Marshal()})
 				return nil
 			},
 		})
